@@ -34,6 +34,8 @@ class LoopMixin(object):
         def local(t):
             if t[0] == "elem" and len(t) > 2 and t[2] == loopid:
                 return True
+            if t[0] == "loopvar" and t[1] == loopid:
+                return True
             if t[0] in ("row", "rows", "cursor", "lastrowid") and \
                     isinstance(t[1], tuple) and t[1][0] == path and lo <= t[1][1] <= hi:
                 return True
@@ -45,6 +47,15 @@ class LoopMixin(object):
         state.fresh = tuple(fr for fr in state.fresh if not mentions(fr[2], local))
         for k in [k for k in state.sel if lo <= k[1] <= hi and k[0] == path]:
             del state.sel[k]
+
+    def _widen(self, s, frame, assigned, loopid):
+        """loop-assigned non-flag variables become stable 'loopvar' terms"""
+        env = s.envs[frame.fid]
+        for nm in assigned:
+            v = env.get(nm)
+            if v is not None and not (is_const(v) and
+                                      isinstance(v[1], (bool, type(None)))):
+                env[nm] = ("loopvar", loopid, nm)
 
     def run_loop(self, node, state, frame, iterterm):
         is_for = isinstance(node, ast.For)
@@ -114,10 +125,12 @@ class LoopMixin(object):
                     alts.append(alt)
                     if o.kind in ("normal", "continue"):
                         s2.events = []
+                        self._widen(s2, frame, assigned, loopid)
                         self._scrub(s2, loopid, lo, hi, path)
                         add_iter(s2, iters + 1)
                     elif o.kind == "break":
                         s2.events = []
+                        self._widen(s2, frame, assigned, loopid)
                         self._scrub(s2, loopid, lo, hi, path)
                         add_exit(s2, iters + 1)
                     else:
@@ -129,14 +142,6 @@ class LoopMixin(object):
         self.loop_rounds[loopid] = max(self.loop_rounds.get(loopid, 0), maxiters)
         for a, (s, iters) in exits.items():
             s.events = pre_events + [loop_ev]
-            if True:
-                # loop-assigned non-flag variables are unknown afterwards
-                # (the loop may or may not have run)
-                env = s.envs[frame.fid]
-                for nm in assigned:
-                    v = env.get(nm)
-                    if v is not None and not (is_const(v) and
-                                              isinstance(v[1], (bool, type(None)))):
-                        env[nm] = ("loopout", loopid, nm)
+            self._widen(s, frame, assigned, loopid)
             results.append((s, NORMAL))
         return results
